@@ -54,7 +54,28 @@ impl Lcg {
     }
 }
 
+/// arguments that are computed rather than written: spelling, value (the sign of the value is all RND looks at;
+/// an argument that overflowed to +infinity is positive, one that overflowed to -infinity negative)
+const COMPUTED_ARGS: &[(&str, f64)] = &[
+    ("10^400", f64::INFINITY),
+    ("10^200*10^200", f64::INFINITY),
+    ("-(10^400)", f64::NEG_INFINITY),
+    ("0-10^400", f64::NEG_INFINITY),
+    ("1-1", 0.0),
+    ("0*10^300", 0.0),
+    ("1/3", 1.0 / 3.0),
+    ("2-1", 1.0),
+    ("1-2", -1.0),
+    ("10^-400", 0.0),
+    ("INT(0.5)", 0.0),
+    ("ABS(-1)", 1.0),
+    ("10^308*1.5", 1.5e308),
+];
+
 fn arg_value(spelling: &str) -> f64 {
+    if let Some((_, v)) = COMPUTED_ARGS.iter().find(|(s, _)| *s == spelling) {
+        return *v;
+    }
     spelling.trim().parse::<f64>().unwrap()
 }
 
@@ -397,7 +418,7 @@ impl Prop for C18 {
     fn meta() -> Meta {
         Meta {
             level: "exploration",
-            rule: "Each run: randomize(s) with s from the boundary dictionary (0, 2^33-1, 2^33, 2^33+1, 2^40, 2^43, 2^44-1, 2^44, 2^44+1, 2^53, 2^63, 2^64-2, 2^64-1, and the two seeds that reach the largest states) or uniform in [0,2^33), [2^33,2^44), [2^44,2^64); then 1-200 draws `PRINT RND(a)` with a positive / zero / negative in random order, as immediate lines and inside stored programs run with break+CONT, with expressions that call RND twice (nested or side by side) and a stored DEF of a user function named RND, interleaved with re-seeding and with host activity that must not touch the generator (RUN of other programs, LIST, STOP/CONT, failing lines, a broken endless loop); every line is also given to the Web adapter (real abasic-web code, natively compiled) seeded identically. Oracle: LCG model in u128 (x <- (1664525 x + 1013904223) mod 2^33), printed text == Display(x / 2^33), value in [0,1), RND(0) repeats without advancing (right after seeding only the range is required), negative argument -> UNIMPLEMENTED without advancing, generator state (probe) == model state after every op, both front ends print the same. distinct_nontrivial = distinct op-sequence hashes among runs with >= 3 draws; distinct_states = distinct generator states visited.",
+            rule: "Each run: randomize(s) with s from the boundary dictionary (0, 2^33-1, 2^33, 2^33+1, 2^40, 2^43, 2^44-1, 2^44, 2^44+1, 2^53, 2^63, 2^64-2, 2^64-1, and the two seeds that reach the largest states) or uniform in [0,2^33), [2^33,2^44), [2^44,2^64); then 1-200 draws `PRINT RND(a)` with a positive / zero / negative in random order (numerals, and computed arguments: sums and quotients, INT/ABS results, and arithmetic that overflowed to +infinity (positive: a draw) or -infinity (negative: refused) or underflowed to 0), as immediate lines and inside stored programs run with break+CONT, with expressions that call RND twice (nested or side by side) and a stored DEF of a user function named RND, interleaved with re-seeding and with host activity that must not touch the generator (RUN of other programs, LIST, STOP/CONT, failing lines, a broken endless loop); every line is also given to the Web adapter (real abasic-web code, natively compiled) seeded identically. Oracle: LCG model in u128 (x <- (1664525 x + 1013904223) mod 2^33), printed text == Display(x / 2^33), value in [0,1), RND(0) repeats without advancing (right after seeding only the range is required), negative argument -> UNIMPLEMENTED without advancing, generator state (probe) == model state after every op, both front ends print the same. distinct_nontrivial = distinct op-sequence hashes among runs with >= 3 draws; distinct_states = distinct generator states visited.",
             real: &["abasic-core Rng + RND builtin", "abasic-web JsInterpreter (native rlib)"],
             stub: &["the clocks that produce seeds (CLI SystemTime, Web Date.now)", "u128 LCG model"],
             assumptions: &[
@@ -435,6 +456,7 @@ impl Prop for C18 {
                     rng.pick(&["1", "1", "1", "0.5", "100", "0.001", "2.5", "1000000", "0.0000000000000000001", ".000000000000000000000000000001", "0.9999999999999999"])
                         .to_string(),
                 ),
+                10 if rng.chance(1, 2) => ROp::Rnd(rng.pick(COMPUTED_ARGS).0.to_string()),
                 10..=12 => ROp::Rnd(rng.pick(&["0", "0.0", "00", "-0"]).to_string()),
                 13..=14 => ROp::Rnd(rng.pick(&["-1", "-0.5", "-100", "-0.0000000000000000001"]).to_string()),
                 15 if rng.chance(1, 2) => ROp::Expr(rng.below(3) as u8),
